@@ -8,7 +8,7 @@ import Norad.Generated.ParSites
 * `norm`: the known, harmless differences between a rayon variant and its sequential twin, erased;
 * the model's side: the list of parallel steps `Model/Par.lean` has (`modelIterSites`), the representation
   pairs of the name table, the one-sided items, the rayon API words and where they may occur, the shared state the
-  model gives a task (`Shared.set` = `names`; the collector `Shared.out` is rayon's), the two-step shape of `get`.
+  model gives a task (`Shared.set` = the `&NameList` parameter; the collector `Shared.out` is rayon's), the two-step shape of `get`.
 -/
 namespace ParSource
 open Generated.ParSites
@@ -58,7 +58,7 @@ def norm (l : List Tok) : List Tok := normGo l.length l
 def allSites : List Site := layerLoad ++ layerSave ++ nameTable ++ otherSites
 
 /-- the pairs that introduce a parallel iteration -/
-def iterSites : List Site := (layerLoad ++ layerSave ++ otherSites).filter (fun s => s.kind = "let" || s.iterated ≠ "")
+def iterSites : List Site := (layerLoad ++ layerSave ++ otherSites).filter (fun s => s.iterated ≠ "")
 
 /-! ## the model's side -/
 
@@ -92,7 +92,7 @@ def modelApiWords : List (String × String × String) :=
 /-- shared state a task of the model touches: on load the name list (`Shared.set`, through the two-step `get`) and
     nothing else — the collector is rayon's `collect` (`Shared.out`); on save its own file and, read-only, the glyph map -/
 def modelTouches : List (String × List String) :=
-  [("load_impl", ["names"]), ("save_with_options", ["self.glyphs"])]
+  [("load_impl", ["NameList"]), ("save_with_options", ["self.glyphs"])]
 
 /-- how a failing task ends the whole step: the first error in order (sequential) or some error (rayon); the model
     only says *fails iff some task fails* (`par_load_fails_iff_seq_fails`), which error is outside the statement -/
@@ -107,13 +107,20 @@ def orderRestored (s : Site) : Bool :=
   orderedCollections.contains s.gathered || s.sortedAfter ||
   (s.gathered = "Vec" && !s.par.contains "par_bridge")
 
-/-- the two atomic steps of `get` as the model has them (`getSplit`: `lookup` under the read lock; on a miss
-    `writeStep` = `insertIfAbsent` under the write lock, returning the requested name), after `norm` -/
-def modelGetBody : List Tok :=
-  ["let", "existing", "=", "self", ".", "0", ".", "borrow", "(", ")", ".", "get", "(", "name", ")", ".", "cloned", "(", ")", ";",
-   "match", "existing", "{", "Some", "(", "name", ")", "=", ">", "name", ",",
-   "None", "=", ">", "{", "self", ".", "0", ".", "borrow_mut", "(", ")", ".", "insert", "(", "name", ".", "clone", "(", ")", ")", ";",
-   "name", ".", "clone", "(", ")", "}", "}"]
+/-- the words of a body that say what it does to the table (local names, punctuation and types left out) -/
+def tableWords : List Tok :=
+  ["borrow", "borrow_mut", "get", "contains", "cloned", "clone", "match", "Some", "None", "insert", "replace",
+   "get_or_insert_with", "get_or_insert", "entry", "or_insert", "or_insert_with", "remove", "take", "retain", "clear",
+   "iter", "next", "find", "first", "last", "static", "OnceLock", "hash", "Hasher", "unwrap_or", "if", "else", "return"]
+
+def shape (l : List Tok) : List Tok := l.filter tableWords.contains
+
+/-- the two atomic steps of `get` as the model has them (`getSplit`: `lookup` under the read lock, clone; on a miss
+    `writeStep false` = `insertIfAbsent` under the write lock, return a clone of the requested name), then `contains`
+    (`lookup` under the read lock): the table words of the `impl`, after `norm`, in order -/
+def modelTableShape : List Tok :=
+  ["get", "borrow", "get", "cloned", "match", "Some", "None", "borrow_mut", "insert", "clone", "clone",
+   "contains", "borrow", "contains"]
 
 def isInfix (p l : List Tok) : Bool :=
   match l with
